@@ -1,0 +1,104 @@
+//go:build verif
+
+package vamana
+
+import (
+	"slices"
+	"sync"
+)
+
+// VerifChange is one element of the change stream as the transform function at
+// the head of insertUpdateDelete received it.
+type VerifChange struct {
+	Id     uint64
+	Vector []float32 // nil: the point has no vector any more
+}
+
+// VerifBatch is what a verification harness is told about one run of
+// insertUpdateDelete. Only compiled with the verif tag.
+type VerifBatch struct {
+	Stream []VerifChange
+	// The bookkeeping once the insert workers have been waited for
+	Classified bool
+	Inserted   []uint64 // ascending
+	Updated    []uint64 // updatedPoints, in order
+	Deleted    []uint64 // deletedPointsIds, in order
+	Touched    []uint64 // toRemoveInBoundNodeIds, ascending
+	MaxNodeId  uint64
+	// The node store at that moment. Only taken when Touched is not empty: the
+	// EdgeScan that follows immediately loads the whole graph in the same way,
+	// so taking it does not change what the index has cached.
+	MidNodes map[uint64][]uint64
+	// What EdgeScan returned, in its order
+	Scanned bool
+	ToPrune []uint64
+	ToSave  []uint64
+}
+
+var (
+	verifBatchMu  sync.Mutex
+	verifBatchCur *VerifBatch
+)
+
+// VerifTakeBatch returns what was recorded since the last call and forgets it.
+func VerifTakeBatch() *VerifBatch {
+	verifBatchMu.Lock()
+	defer verifBatchMu.Unlock()
+	b := verifBatchCur
+	verifBatchCur = nil
+	return b
+}
+
+func verifSawChange(point IndexVectorChange) {
+	verifBatchMu.Lock()
+	defer verifBatchMu.Unlock()
+	if verifBatchCur == nil || verifBatchCur.Classified {
+		verifBatchCur = &VerifBatch{}
+	}
+	verifBatchCur.Stream = append(verifBatchCur.Stream, VerifChange{Id: point.Id, Vector: slices.Clone(point.Vector)})
+}
+
+func verifSortedKeys(m map[uint64]struct{}) []uint64 {
+	r := make([]uint64, 0, len(m))
+	for k := range m {
+		r = append(r, k)
+	}
+	slices.Sort(r)
+	return r
+}
+
+func (v *IndexVamana) verifClassified(updated []IndexVectorChange, deleted []uint64, touched map[uint64]struct{}, inserted map[uint64]struct{}) {
+	verifBatchMu.Lock()
+	defer verifBatchMu.Unlock()
+	if verifBatchCur == nil || verifBatchCur.Classified {
+		verifBatchCur = &VerifBatch{}
+	}
+	b := verifBatchCur
+	b.Classified = true
+	b.Inserted = verifSortedKeys(inserted)
+	b.Touched = verifSortedKeys(touched)
+	for _, p := range updated {
+		b.Updated = append(b.Updated, p.Id)
+	}
+	b.Deleted = slices.Clone(deleted)
+	b.MaxNodeId = v.maxNodeId.Load()
+	if len(touched) > 0 {
+		b.MidNodes = make(map[uint64][]uint64)
+		v.nodeStore.ForEach(func(id uint64, node *graphNode) error {
+			node.edgesMu.RLock()
+			b.MidNodes[id] = slices.Clone(node.edges)
+			node.edgesMu.RUnlock()
+			return nil
+		})
+	}
+}
+
+func verifEdgeScan(toPrune, toSave []uint64) {
+	verifBatchMu.Lock()
+	defer verifBatchMu.Unlock()
+	if b := verifBatchCur; b != nil {
+		b.Scanned = true
+		b.ToPrune = slices.Clone(toPrune)
+		b.ToSave = slices.Clone(toSave)
+	}
+}
